@@ -45,6 +45,7 @@ def check(ctx: Ctx, rep: Report):
     rep.rule("C06.R8", "datagram transport with keep-alive off: the socket is closed before the lock is handed to another task", 1)
     rep.rule("C06.R7", "one lock per protocol object and event loop: _ensure_lock creates a lock only when none exists or the running loop changed", 2)
     r7(ctx, rep)
+    foreign_writers(ctx, rep, "C06.R1")
     ms = ctx.memo("maysuspend", lambda: MaySuspend(ctx.prog, ctx.res))
     for ci in proto_classes(ctx):
         r1(ctx, rep, ci)
@@ -56,6 +57,42 @@ def check(ctx: Ctx, rep: Report):
         r6(ctx, rep, ci)
         r8(ctx, rep, ci)
     r4_execute(ctx, rep, ms)
+
+
+def foreign_writers(ctx, rep, rule: str):
+    """No code outside the protocol classes' own methods assigns the in-flight attributes of a protocol object
+    (``protocol.command = ...`` in a caller replaces the validator / future of a request another task has in flight)."""
+    prog, res = ctx.prog, ctx.res
+    protos = list.__iter__(proto_classes(ctx))
+    protos = list(protos)
+    base = [c for ci in protos for c in prog.mro(ci) if hasattr(c, "methods") and any(a in INFLIGHT for m in c.methods.values() for n in ast.walk(m.node) if isinstance(n, ast.stmt) for a, _, _ in self_store(n))]
+    n = 0
+    for f in res.all_funcs():
+        own = f.cls is not None and any(f.cls is c for c in base + protos)
+        for node in res._own_nodes(f):
+            tgts = []
+            if isinstance(node, ast.Assign):
+                tgts = node.targets
+            elif isinstance(node, (ast.AugAssign, ast.AnnAssign)):
+                tgts = [node.target]
+            elif isinstance(node, ast.Delete):
+                tgts = node.targets
+            flat = []
+            for t in tgts:
+                flat.extend(t.elts if isinstance(t, (ast.Tuple, ast.List)) else [t])
+            for t in flat:
+                if not (isinstance(t, ast.Attribute) and t.attr in INFLIGHT):
+                    continue
+                if isinstance(t.value, ast.Name) and t.value.id == "self" and f.cls is not None:
+                    continue          # a class's own attribute: the protocol classes' writers are judged by writer:* above
+                types = res.expr_types(t.value, f)
+                insts = [x[1] for x in types if x[0] == "inst"]
+                may_be_proto = not insts or any(prog.is_subclass(c, b) or prog.is_subclass(b, c) for c in insts for b in protos)
+                n += 1
+                rep.check(not may_be_proto, rule, "foreign-writer:%s:%s" % (f.short, norm(t)), f.loc(node),
+                          "%s assigns %s of a non-protocol object" % (f.short, norm(t)),
+                          bad="%s assigns %s of a protocol object from outside the protocol's locked region: the validator / future of a request in flight is replaced" % (f.short, norm(t)))
+    rep.check(True, rule, "foreign-writer:scan", "goodwe/", "in-flight attributes %s are assigned on a non-self receiver at %d sites, none of them a protocol object" % (list(INFLIGHT), n))
 
 
 # ----------------------------------------------------------------------- R1
